@@ -52,6 +52,10 @@ def cloud_strategy(draw, tier):
             "other_soma_first": draw(st.integers(0, 3)) == 0, "names_per_call": draw(st.integers(0, 4)) == 0,
             # how the caller writes the soma position down: a float array, or whole numbers as a list / tuple of Python
             # ints or an integer array (next to a floating-point cloud)
+            # the soma lies a few thousandths of a unit beside one of the cloud's points (wherever the cloud lies)
+            "soma_beside_a_point": draw(st.integers(0, 5)) == 0,
+            # the caller's array object was used for an earlier cloud (same shape), refilled in place, and is handed over again
+            "buffer_refilled": draw(st.integers(0, 3)) == 0,
             "soma_form": draw(st.sampled_from(["float-array", "float-array", "float-list", "int-list", "int-tuple", "int64-array", "int32-array"]))}
 
 
@@ -152,10 +156,17 @@ def run_cloud(case, ctx):
     soma = case["soma"]
     dtype = case.get("dtype", "float64")
     is_int = dtype.startswith("int")
+    if case.get("soma_beside_a_point") and not is_int:
+        j = case["seed"] % len(P)
+        soma = (np.asarray(P[j], dtype=np.float64) + np.array([0.00390625, 0.0, -0.001953125])).tolist()
+        case = dict(case, soma_form="float-array")
+        ctx.cls("soma-a-few-thousandths-beside-a-cloud-point")
     soma_arg = None
     if soma is not None:
         soma = np.array([round(v * 50) for v in soma], dtype=dtype) if is_int else np.array(soma, dtype=np.float64)
         soma_arg = soma
+        if case.get("soma_beside_a_point") and not is_int:
+            soma = soma_arg = np.asarray(soma, dtype=np.float64)
         form = case.get("soma_form", "float-array")
         if not is_int and form != "float-array":
             if form == "float-list":
@@ -203,6 +214,15 @@ def run_cloud(case, ctx):
     if case.get("other_soma_first") and soma is not None and not is_int:
         ctx.lib(f"{which}/build", tr, P.copy(), np.asarray(soma, dtype=np.float64) + np.array([7.5, -3.25, 11.0]))
         ctx.cls("same-object-same-cloud-another-soma-before")
+    if case.get("buffer_refilled"):
+        real = P.copy()
+        P[...] = (real[::-1] * 3 + 2).astype(P.dtype)  # the earlier cloud, held by the very same array object
+        try:
+            tr(P) if soma is None else tr(P, soma_arg)
+        except Exception:  # noqa - only the call on the refilled buffer is judged
+            pass
+        P[...] = real
+        ctx.cls("caller's-array-object-used-before-and-refilled")
     snapshot = P.copy()
     args = (P,) if soma is None else (P, soma_arg)
     kwargs = {}
@@ -387,5 +407,6 @@ SUBCHECKS = [
                   "bf-clipped": 50, "sort": 300, "nosort": 300, "dtype:float32": 200, "dtype:int32": 200, "dtype:int64": 200, "far-from-origin": 300,
                   "transform-object-reused": 300, "limit-through-deprecated-keyword": 60,
                   "same-object-same-cloud-another-soma-before": 150, "column-names-given-per-call": 300,
-                  "soma-given-as-whole-numbers-beside-a-float-cloud": 300, "transform-object-used-after-a-refused-call": 500}),
+                  "soma-given-as-whole-numbers-beside-a-float-cloud": 300, "transform-object-used-after-a-refused-call": 500, "soma-a-few-thousandths-beside-a-cloud-point": 300,
+                  "caller's-array-object-used-before-and-refilled": 600}),
 ]
